@@ -127,7 +127,7 @@ def main():
             "kind_free_text": "contract-based deductive verifier for Go: go/ssa symbolic VC generation against //@ contracts, obligations discharged by z3/z3-new/cvc5, counterexamples replayed on the real code with go test -overlay",
         }],
         "checks": checks,
-        "notes": "See DESIGN.md. known_findings.json lists repaired defects (fixed:) and recorded findings.",
+        "notes": "See DESIGN.md (section 9 is the as-built description). known_findings.json lists repaired defects (fixed:) and recorded findings. Thorough runs add a differential validation of the verifier's own semantics against the compiled code (kvc conform, evidence key semantics_conformance). selftest.sh re-runs the 71 seeded changes of /verif/seeded as a must-fail corpus.",
         "not_applicable": na,
     }
     json.dump(m, open("/verif/MANIFEST.json", "w"), indent=1)
